@@ -197,6 +197,10 @@ func reflectConfig(r *rand.Rand) string {
 			if et.Kind() == reflect.Ptr {
 				et = et.Elem()
 			}
+			if r.Intn(6) == 0 {
+				items = append(items, nil) // "- " with nothing behind it
+				continue
+			}
 			items = append(items, g.strct(et, 2))
 		}
 		recv[name] = items
